@@ -765,8 +765,8 @@ pub fn run(tier: Tier) -> i32 {
     ctx.push_report(rep);
     ctx.run_part(Verifiers, tier.pick(6_000, 200_000));
     ctx.run_part(Signatures, tier.pick(6_000, 200_000));
-    ctx.run_part(Handshakes, tier.pick(1_500, 40_000));
-    ctx.run_part(Messages, tier.pick(600, 10_000));
+    ctx.run_part(Handshakes, tier.pick(1_500, 120_000));
+    ctx.run_part(Messages, tier.pick(600, 30_000));
     if tier == Tier::Thorough {
         crate::fuzzrun::campaign(&mut ctx, "cert_verify", 400_000);
     }
